@@ -613,7 +613,7 @@ func p11GenFunction(r *rng, st map[string]int, malformed bool, idx int) *ir.Func
 			fn.ISA = append(fn.ISA, pick(r, p11IsaPool))
 		}
 		if malformed && r.chance(1, 4) {
-			fn.ISA = append(fn.ISA, pick(r, []string{"", "A\nB", " "}))
+			fn.ISA = append(fn.ISA, pick(r, []string{"", "A\nB", " ", "AVX\u00a0", "X\u0085", "Y\u2003 ", "Z\u200b", "W\ufeff", "V\u1680", "\u3000", "T\t", "U\u2028", "S\u205f\u202f", "R\u180e", "Q\v\f\r"}))
 		}
 	}
 	if r.chance(1, 2) {
@@ -692,6 +692,12 @@ func p11GenConfig(r *rng) printer.Config {
 func p11GenFile(r *rng, st map[string]int, malformed bool) *ir.File {
 	f := ir.NewFile()
 	f.Constraints = p11GenConstraints(r)
+	if malformed && r.chance(1, 5) {
+		// terms the constraint syntax does not allow (incl. printf verbs: goasm.header uses the
+		// formatted block as a format string)
+		t := pick(r, []string{"a%b", "%d", "100%", "%s", "a b", "//go:build x", ""})
+		f.Constraints = append(f.Constraints, buildtags.Constraint{buildtags.Option{buildtags.Term(t)}})
+	}
 	for k := r.intn(3); k > 0 && r.chance(1, 2); k-- {
 		f.Includes = append(f.Includes, pick(r, []string{"textflag.h", "a.h", "dir/b.h", "go_asm.h"}))
 	}
